@@ -147,6 +147,10 @@ type c07Scenario struct {
 	Cmds   []tlCmd `json:"cmds"`
 	Reqs   []tlReq `json:"reqs"`
 	Placed bool    `json:"placed"`
+	// Prefix: the service is deployed below this path prefix (with or without prefix stripping) and
+	// every request is spelled below it; "<prefix>/up" is then an ordinary request, held like any other.
+	Prefix string `json:"path_prefix,omitempty"`
+	Strip  bool   `json:"strip_prefix,omitempty"`
 }
 
 func tlGenCmds(rng *rand.Rand, n int, kinds []string, msgs []string) []tlCmd {
@@ -193,6 +197,9 @@ func tlGenCmds(rng *rand.Rand, n int, kinds []string, msgs []string) []tlCmd {
 
 func c07Gen(rng *rand.Rand, idx int) c07Scenario {
 	sc := c07Scenario{Idx: idx, NT: 1 + rng.IntN(2)}
+	if idx%4 == 1 || idx%4 == 3 {
+		sc.Prefix, sc.Strip = "/svc", idx%4 == 1
+	}
 	kinds := []string{"pause", "pause", "pause", "resume", "resume", "stop", "deploy", "deploy", "rollout-deploy", "rollout-set", "rollout-stop"}
 	n := 4 + rng.IntN(9)
 	sc.Cmds = tlGenCmds(rng, n, kinds, []string{"", "maintenance", "back <soon> & \"later\""})
@@ -415,7 +422,12 @@ func c07Run(t *testing.T, run *Run, sc c07Scenario) {
 		}
 		return out
 	}
-	if c := w.Deploy(svc, mk("a", 1), DefSO, to, 5*time.Second, time.Second); c.Err != "" {
+	so, hcPath := DefSO, "/up"
+	if sc.Prefix != "" {
+		so.PathPrefixes, so.StripPrefix = []string{sc.Prefix}, sc.Strip
+		hcPath = "\x00no request path is the health-check path"
+	}
+	if c := w.Deploy(svc, mk("a", 1), so, to, 5*time.Second, time.Second); c.Err != "" {
 		run.Inconclusive("setup failed: %s", c.Err)
 		return
 	}
@@ -433,7 +445,7 @@ func c07Run(t *testing.T, run *Run, sc c07Scenario) {
 			case "deploy":
 				names := mk("a", c.Gen)
 				tlSlowFirstProbe(w, names, c.Slow)
-				rec = w.Deploy(svc, names, DefSO, to, 5*time.Second, time.Second)
+				rec = w.Deploy(svc, names, so, to, 5*time.Second, time.Second)
 			case "rollout-deploy":
 				rec = w.RolloutDeploy(svc, mk("r", c.Gen), 5*time.Second, time.Second)
 			case "rollout-set":
@@ -450,6 +462,7 @@ func c07Run(t *testing.T, run *Run, sc c07Scenario) {
 		if r.Path == "/up" {
 			req.Path = "/up"
 		}
+		req.Path = sc.Prefix + req.Path
 		if r.Cookie {
 			req.Hdr = append(req.Hdr, [2]string{"Cookie", "kamal-rollout=u1"})
 		}
@@ -505,13 +518,13 @@ func c07Run(t *testing.T, run *Run, sc c07Scenario) {
 			run.Inconclusive("no client record for %s", r.ID)
 			return
 		}
-		cands, tie := tlExpect(sc.Cmds, r, "/up")
+		cands, tie := tlExpect(sc.Cmds, r, hcPath)
 		if r.D2 > 0 {
 			// placed in the gate/claim window of a command: the request counts as having arrived
 			// either before the command (when it passed the gate) or after it (when it claimed)
 			later := r
 			later.At = r.At + r.D2 + Step
-			c2, tie2 := tlExpect(sc.Cmds, later, "/up")
+			c2, tie2 := tlExpect(sc.Cmds, later, hcPath)
 			cands, tie = append(cands, c2...), tie || tie2
 			run.Count("placed_checked", 1)
 		}
@@ -574,6 +587,9 @@ func c07Run(t *testing.T, run *Run, sc c07Scenario) {
 					wantURI := r.Path + "?q=" + r.ID + "&x=a;b"
 					if r.Path == "/up" {
 						wantURI = "/up"
+					}
+					if !sc.Strip {
+						wantURI = sc.Prefix + wantURI
 					}
 					if q.Method != r.Method || q.URI != wantURI || !bytes.Equal(q.Body, tlBody(r.ID, r.Body)) ||
 						strings.Join(q.Header.Values("X-Multi"), ",") != "one,two" || q.Host != "c07.example" {
